@@ -822,6 +822,7 @@ impl Sut for ChanSut {
         }
         let held_now = self.held.lock().unwrap().iter().filter(|x| x.is_some()).count();
         let reserved_now: usize = self.reserved.lock().unwrap().iter().map(|v| v.len()).sum();
+        let drops_q = drops_snapshot();
         // capacity probe: with everything consumed and released, exactly BUFFER_SIZE sends must be accepted
         let mut probe = -1i64;
         if self.probe >= 0 && !frozen && self.drain && !not_complete_blocks(not_complete) {
@@ -838,7 +839,7 @@ impl Sut for ChanSut {
         }
         json!({"hard": false, "not_complete": not_complete, "frozen": frozen, "pending": pending, "running": running, "open": open,
                "live": live, "left": left, "held": held_now, "reserved": reserved_now, "drained": !frozen && self.drain,
-               "probe": probe, "probe_expected": self.probe})
+               "probe": probe, "probe_expected": self.probe, "drops_at_quiescence": drops_q})
     }
 
     fn after_finish(&self, obs: &mut Value, hard: bool) {
